@@ -427,6 +427,69 @@ def _shrink(circ, still_bad):
         return circ
 
 
+def epsilon_probes(ctx: Ctx):
+    """always-run family: every entry point that takes an `epsilon`, constructed with non-default values (and the default),
+    on circuits whose rotation angles sit at ±(kπ/4 ± δ) with δ just inside / just outside each epsilon (and a few absolute
+    offsets that other tolerances – numpy's isclose defaults, 1e-9 – would pick); judged by the promised gate set only"""
+    import math
+
+    import quri_parts.circuit.transpile as T
+    from quri_parts.circuit import QuantumCircuit, gates
+
+    star, rzset, rot = ["H", "S", "RZ", "CNOT"], ["X", "SqrtX", "RZ", "CNOT"], ["RX", "RY", "RZ", "CZ"]
+    n_eval = 0
+    for eps in (1.0e-4, 1.0e-6, 1.0e-10, 1.0e-2, 1.0e-9):
+        trs = [
+            (f"CliffordRZSetTranspiler({eps})", (lambda e=eps: T.CliffordRZSetTranspiler(e)), PROMISED["CliffordRZSetTranspiler"]),
+            (f"CliffordRZSetTranspiler(epsilon={eps})", (lambda e=eps: T.CliffordRZSetTranspiler(epsilon=e)), PROMISED["CliffordRZSetTranspiler"]),
+            (f"GateSetConversion({star};list;eps={eps})", (lambda e=eps: T.GateSetConversionTranspiler(star, epsilon=e)), set(star)),
+            (f"GateSetConversion({rzset};list;eps={eps})", (lambda e=eps: T.GateSetConversionTranspiler(rzset, e)), set(rzset)),
+            (f"GateSetConversion({rot};list;eps={eps})", (lambda e=eps: T.GateSetConversionTranspiler(rot, epsilon=e)), set(rot)),
+        ]
+        deltas = [0.0, 0.5 * eps, 0.99 * eps, 1.01 * eps, 3.0 * eps, 2.0e-5, 5.0e-9, 0.3 * eps + 1.0e-12]
+        circs = []
+        for k in range(0, 9):
+            for sg in (1.0, -1.0):
+                for d in deltas:
+                    for dsg in (1.0, -1.0):
+                        th = sg * (k * math.pi / 4 + dsg * d)
+                        carrier = (k + int(sg > 0) + 2 * int(dsg > 0) + deltas.index(d)) % 8  # every carrier with every (k, δ) over the family
+                        q = carrier % 2
+                        gl = {
+                            0: [gates.RZ(q, th)],
+                            1: [gates.U1(q, th)],
+                            2: [gates.RZ(q, th - 0.4), gates.RZ(q, 0.4)],  # reaches the angle only after rotation fusion
+                            3: [gates.T(q), gates.RZ(q, th - math.pi / 4)],
+                            4: [gates.RX(q, th)],
+                            5: [gates.RY(q, th), gates.CNOT(0, 1)],
+                            6: [gates.PauliRotation([q], [3], th), gates.H(1 - q)],
+                            7: [gates.U3(q, 0.0, th, 0.0)] if k % 2 else [gates.U2(q, th, 0.0)],
+                        }[carrier]
+                        circs.append(QuantumCircuit(2, gates=gl))
+        for label, make, target in trs:
+            try:
+                tr = make()  # one object for the whole family (also a call history)
+            except Exception as e:  # noqa: BLE001
+                ctx.count("epsilon-probes", "ctor-raised:" + type(e).__name__)
+                continue
+            for circ in circs:
+                n_eval += 1
+                try:
+                    v = _violations(tr(circ), 2, target)
+                except Exception as e:  # noqa: BLE001 – raising is allowed
+                    ctx.count("epsilon-probes", "raised:" + type(e).__name__)
+                    continue
+                ctx.count("epsilon-probes", "ok")
+                key = label.split("(")[0]
+                for kind, what in v.items():
+                    shown = circ
+                    if sum(1 for w in ctx.witnesses if w["key"] == f"{kind}:{key}") < 3:
+                        shown = _shrink(circ, lambda c, kind=kind: kind in _violations(make()(c), 2, target))
+                    ctx.witness(f"{kind}:{key}", f"{label} {what}", describe_circ2(shown), {"target": sorted(target), "epsilon": eps})
+    ctx.evaluations += n_eval
+    ctx.extra["epsilon_probes"] = {"evaluations": n_eval}
+
+
 def validate(ctx: Ctx, budget_s: float):
     """the property itself on the real code: names ⊆ target set (UnitaryMatrix on ≥ 3 qubits excepted) or raise;
     qubit count unchanged; no index outside the register"""
@@ -937,6 +1000,8 @@ def run(ctx: Ctx, replay=None) -> int:
         parametric_error_branches(ctx)
     with ctx.timed("oracle_parametric"):
         parametric(ctx, (6 if ctx.quick() else 90) * (1 if ok and not ctx.disagreements else 3))
+    with ctx.timed("epsilon_probes"):
+        epsilon_probes(ctx)
     with ctx.timed("oracle_validation"):
         validate(ctx, (15 if ctx.quick() else 180) * (1 if ok and not ctx.disagreements else 3))
     return ctx.finish()
